@@ -602,6 +602,24 @@ def install():
     xrun.signal = Proxy(real_signal, signal=sim_signal_signal, getsignal=sim_getsignal)
     xrun.report_eoj = lambda: None
     xrun.progress = lambda *a, **kw: None
+    preinit_types()
+
+
+def preinit_types():
+    """Type information is initialised lazily and is process-global: do it before
+    any simulated process exists (a simulated crash in the middle of it would leave
+    the shared classes half-built, which a real new process cannot observe)."""
+    from . import simtasks as S
+
+    for name in dir(S):
+        cls = getattr(S, name)
+        if not (isinstance(cls, type) and hasattr(cls, "__getxpmtype__")):
+            continue
+        xt = cls.__getxpmtype__()
+        if xt is not None and hasattr(xt, "__initialize__"):
+            xt.__initialize__()
+            xt.arguments
+            getattr(xt, "task", None)
 
 
 def escape_check():
